@@ -8,6 +8,7 @@ import Peppi.Lemmas.C10Gen
 import Peppi.Lemmas.C10A
 import Peppi.Lemmas.PeppiRound
 import Peppi.Lemmas.Example
+import Peppi.Lemmas.Unified2
 set_option linter.unusedVariables false
 namespace Peppi.Props.C10
 
@@ -121,5 +122,16 @@ theorem example_A_roundtrip :
     ∀ n, n < (r.encodeAny s.version (portOccupancy s) none).length →
       ∃ e, readSlp T0 {} ((r.encodeAny s.version (portOccupancy s) none).take n) = .err e :=
   _root_.Peppi.example_A_roundtrip 
+
+/- from `Peppi.Lemmas.Unified2` -/
+open Extracted in
+theorem C10_rewrite_any (T : TextOracle) (r : Replay) (s : Start) (gk : Option GeckoBlocks) (h : r.WFAny T s gk)
+    (hmax : assertMaxVersion s.version = .ok ()) (e : Bytes) (hfe : r.fend = some e) (hash : Bool) :
+    ∃ gSkip, readSlp T { skipFrames := true, computeHash := hash } (r.encodeAny s.version (portOccupancy s) gk) = .ok gSkip ∧
+      writeSlp gSkip = writeSlp { gSkip with hashedLen := none } ∧
+      writeSlp { gSkip with hashedLen := none } = .ok (r.skipped.encodeAny s.version (portOccupancy s) none) ∧
+      readSlp T {} (r.skipped.encodeAny s.version (portOccupancy s) none) = .ok { gSkip with hashedLen := none } ∧
+      readSlp T { skipFrames := true } (r.skipped.encodeAny s.version (portOccupancy s) none) = .ok { gSkip with hashedLen := none } :=
+  _root_.Peppi.C10_rewrite_any T r s gk h hmax e hfe hash
 
 end Peppi.Props.C10
